@@ -12,6 +12,8 @@ CONSTANTS
   RepoWrapped = TRUE
   EmbFinally = FALSE
   RestoreOnReturn = TRUE
+  EmbRestoreAll = TRUE
+  SuperCheckFirst = TRUE
 INVARIANT TypeOK
 INVARIANT ImplRefinesReq
 INVARIANT PositionFileOK
